@@ -260,19 +260,6 @@ theorem RC.of_check {al bl : List Route} {dels : List (Nat × Route)} {inss : Li
   · exact absurd e1 h9
   · exact h9
 
-theorem inj_of_nodup_map {α β : Type} (f : α → β) : ∀ (l : List α), (l.map f).Nodup → ∀ x ∈ l, ∀ y ∈ l, f x = f y → x = y := by
-  intro l
-  induction l with
-  | nil => intro _ x hx; simp at hx
-  | cons a l ih =>
-    intro h x hx y hy e1
-    simp only [List.map_cons, List.nodup_cons] at h
-    rcases List.mem_cons.mp hx with rfl | hx' <;> rcases List.mem_cons.mp hy with rfl | hy'
-    · rfl
-    · exact absurd (List.mem_map.mpr ⟨y, hy', e1.symm⟩) h.1
-    · exact absurd (List.mem_map.mpr ⟨x, hx', e1⟩) h.1
-    · exact ih h.2 x hx' y hy' e1
-
 theorem nodup_of_map {α β : Type} (f : α → β) : ∀ (l : List α), (l.map f).Nodup → l.Nodup := by
   intro l
   induction l with
